@@ -306,7 +306,7 @@ def describe(m):
     if m[0] in ('run', 'ins'):
         return [m[0], m[1], m[2].hex()]
     if m[0] in ('app', 'raw'):
-        return [m[0], m[1].hex() if m[0] == 'app' else '(%d bytes)' % len(m[1])]
+        return [m[0], m[1].hex() if m[0] == 'app' else '(%d bytes)' % len(m[1])] + list(m[2:])
     return list(m)
 
 
